@@ -208,6 +208,9 @@ class PreemptibleResource(Entity):
             self._try_preempt(amount, priority)
             if self._available >= amount:
                 self._grant_immediate(future, amount, priority, on_preempt)
+                # The evicted grant may have been larger than this request:
+                # offer what is left to the queue.
+                self._wake_waiters()
                 return future
 
         # Must wait
